@@ -25,7 +25,7 @@ FAMS = ("qp", "qp_quartic", "rosenbrock", "exp_wall", "rastrigin", "styblinski_t
 
 
 def floors(tier):
-    f = {"results_judged": 1500, "restart_results_judged": 500, "restart_below_checkpoint_nit": 100, "early_return_on_restart": 40,
+    f = {"results_judged": 1500, "restart_results_judged": 500, "restarts_with_a_budget_of_a_few_evaluations": 300, "restart_below_checkpoint_nit": 100, "early_return_on_restart": 40,
          "callable_stop_criteria_runs": 200, "runs_with_logger": 300, "restarts_with_a_scaler_over_an_unscaled_checkpoint": 100, "kept_results_audited_at_the_end": 1500, "restarts_with_analytic_gradient_from_a_finite_difference_checkpoint": 40, "runs_with_objective_redefined": 150, "objective_redefined_at_a_stationary_point_of_the_old_one": 60,
          "runs_on_domain_restricted_objective": 60, "results_judged_with_the_factorisation_checking_switch": 150, "runs_with_objective_values_and_target_of_order_1e-16_and_below": 60, "__nontrivial__": 25}
     for k in MESSAGES:
@@ -35,7 +35,7 @@ def floors(tier):
 
 def cases(tier, seed):
     rng = np.random.default_rng(subseed("C04", seed))
-    nrun = 2500 if tier == "quick" else 80000
+    nrun = 5000 if tier == "quick" else 100000
     for i in range(nrun):
         ps = gen.rand_spec(rng, FAMS, nmax=6, boxes=("none", "mixed", "boxed", "lower", "narrow", "nonneg", "unit", "boxed_degenerate", "all_fixed"), starts=("interior", "face", "vertex"))
         if ps["family"] == "log_barrier":
@@ -76,6 +76,7 @@ def cases(tier, seed):
                              "target_between": bool(rng.random() < 0.5),
                              "maxfun_slack": int(rng.integers(0, 4)),
                              "target_met": bool(rng.random() < 0.25), "maxls": int(gen.pick(rng, [1, 2, 5, 20])),
+                             "tight_budget": int(rng.integers(1, 5)) if rng.random() < 0.35 else None,
                              "cb": gen.pick(rng, [None, "never", 1])})
         tiny = float(10.0 ** -rng.uniform(16, 60)) if (i % 14 == 5 and "scaler" not in cfg) else None
         if tiny is not None:
@@ -331,6 +332,12 @@ def run(spec):
             c2["maxiter"] = int(ck.nit) + 5
             c2["maxls"] = 20
             out.count("restarts_with_analytic_gradient_from_a_finite_difference_checkpoint")
+        if rs.get("tight_budget") is not None:
+            # the continuation is granted a few evaluations beyond what the checkpoint has used, with a short line-search cap
+            c2["maxfun"] = int(ck.nfev) + int(rs["tight_budget"])
+            c2["maxiter"] = int(ck.nit) + 5
+            c2["maxls"] = int(rs["maxls"]) if int(rs["maxls"]) > 1 else 3
+            out.count("restarts_with_a_budget_of_a_few_evaluations")
         if rs["target_met"] and np.isfinite(ck.fun):
             c2["ftarget"] = float(ck.fun) + 1.0
         if c2.get("scaler") is not None and rs.get("target_between") and np.isfinite(ck.fun) and ck.fun != 0:
